@@ -102,11 +102,16 @@ def grid_monitor(ctx, sc, out):
     k = sc["k"]
     enough = len(out["good"]) >= k
     poss = len(out["possible"]) >= k
-    faults = bool(sc["share_faults"] or sc["server_plans"] or sc["copies"])
+    badguess = bool(sc.get("fresh_nodes"))
+    faults = bool(sc["share_faults"] or sc["server_plans"] or sc["copies"] or badguess)
     for group, outs in zip(sc["reads"], out["groups"]):
         for (off, sz), o in zip(group, outs):
             ctx.case(json.dumps([sc, off, sz]) if faults else None)
             ctx.count("grid-read:" + o)
+            if badguess:
+                # first read on a fresh node; relation of the segment number computed from the guessed segment
+                # size to the real one (beyond = guessed segnum >= real number of segments)
+                ctx.count("badguess:%s:%s%s" % (fc.guess_relation(sc, off), o, ":concurrent" if len(group) > 1 else ""))
             ctx.count("grid-enough" if enough else ("grid-possible" if poss else "grid-too-few"))
             if o == "wrong-data":
                 ctx.violation("read returned wrong bytes", case, "wrong-data")
@@ -120,8 +125,10 @@ def grid_monitor(ctx, sc, out):
                                   "data-with-too-few-shares")
             else:
                 if enough:
-                    ctx.violation(">= k distinct good shares on answering servers but the read failed with %s" % o, case,
-                                  "enough-good-shares-read-failed-" + o)
+                    ctx.violation(">= k distinct good shares on answering servers but the read failed with %s%s" %
+                                  (o, " (first read on a fresh node, segment-size guess %s real)" %
+                                   ("<" if sc["gmax"] < sc["segsize"] else ">") if sc.get("gmax") else ""), case,
+                                  ("wrong-segsize-guess-read-failed-" if badguess else "enough-good-shares-read-failed-") + o)
                 elif o not in ("NotEnoughSharesError", "NoSharesError"):
                     ctx.violation("read failed with %s instead of NotEnoughSharesError/NoSharesError" % o, case,
                                   "too-few-shares-wrong-error-" + o)
@@ -176,7 +183,7 @@ def run(ctx):
             impl.append(";".join(digs))
             lines.append("fetch %d %s" % (k, " ".join(toks)))
             ctx.case(("F", k, tuple(toks)))
-        for i in range(ctx.budget(700, 30000)):
+        for i in range(ctx.budget(600, 30000)):
             malformed = (i % 3 == 2)
             k, toks, digs, info = fc.gen_fetch_script(ctx.rng, malformed=malformed, max_events=300)
             fcases.append({"kind": "fetch", "k": k, "toks": toks})
@@ -195,10 +202,18 @@ def run(ctx):
                 ctx.count("fetch-overdue")
             if not malformed and len(toks) < 300:
                 fetch_monitor(ctx, k, toks, info)
-        for i in range(ctx.budget(260, 6000)):
+        for i in range(ctx.budget(200, 6000)):
             scenarios.append(fc.gen_scenario(ctx.rng))
+        # corpus: intact 1-of-2 file, 128-byte segments, reader guesses 17: first read at 384 (guessed segnum 22 of 6)
+        scenarios.append({"kind": "grid", "k": 1, "n": 2, "servers": 2, "segsize": 128, "gmax": 17, "fresh_nodes": True,
+                          "size": 700, "grid_seed": 816538223, "policy": "random", "dataseed": 268472504, "copies": [],
+                          "share_faults": [], "server_plans": {}, "reads": [[[384, 17]], [[373, 2]]], "crafted": []})
+        for i in range(ctx.budget(50, 1500)):
+            scenarios.append(fc.gen_badguess_scenario(ctx.rng, faults=(i % 2 == 1)))
+        if ctx.tier == "thorough":
+            scenarios.append(fc.big_badguess_scenario())
         late.append(fc.gen_late_error_scenario(None, canonical=True))      # corpus: minimised history
-        for i in range(ctx.budget(40, 700)):
+        for i in range(ctx.budget(30, 700)):
             late.append(fc.gen_late_error_scenario(ctx.rng))
     model = ctx.model(lines) if lines else None
     if model is not None:
